@@ -191,6 +191,15 @@ Verdict judge_c05(Plan const& p, History const& h, RunInfoLite const& ri)
                        "id " + std::to_string(w.id) + " carries timestamp " + std::to_string(ts_v) + " but the call ran from " +
                          std::to_string(is.invoke_vt) + " to " + std::to_string(is.return_vt) + " (virtual ns)");
     }
+    if (!tsc && is.first_clock != 0 && w.ts != is.first_clock)
+    {
+      // ... exactly: the first value the wall clock returned to the caller inside the call, also when the call then had to
+      // wait for room in a blocking queue
+      return violation("timestamp_is_not_the_clock_value_read_at_the_start_of_the_call",
+                       "id " + std::to_string(w.id) + " carries timestamp " + std::to_string(w.ts - epoch) +
+                         " but the first clock value its thread read inside the call was " + std::to_string(is.first_clock - epoch) +
+                         " (the call ran from " + std::to_string(is.invoke_vt) + " to " + std::to_string(is.return_vt) + ", virtual ns)");
+    }
     if (tsc && (ts_v + tol < static_cast<int64_t>(is.invoke_vt) || ts_v - tol > static_cast<int64_t>(is.return_vt)))
     {
       ++ts_mismatch;
